@@ -34,6 +34,9 @@ var c15Corpus = []string{
 	// bytes that are no valid UTF-8: harmless as they stand (a same-site path segment), off-site if a layer
 	// drops or replaces them after the guard has looked
 	"/\xff/evil.example/", "/\xc0/evil.example/x", "/\xe2\x82/evil.example/", "/\xff\xfe/evil.example", "/\xf0\x9f/\\evil.example/",
+	// a same-site target that is itself a login page carrying a return target of its own: what the inner value
+	// says is none of the outer redirect's business
+	"/auth/login?redir=//evil.example/", "/login?redir=https://evil.example/phish", "/auth/login?x=1&redir=%2F%5Cevil.example%2F", "/a/b/login?redir=//evil.example/&y=2", "/auth/2fa/totp/validate?redir=//evil.example/",
 	// benign same-site targets that may be followed
 	"/after/login", "/x?y=1&z=2", "/deep/path/here#frag", "/a//b", "/with%20space", "/?next=/inner", "/path:with:colons", "/x?u=http%3A%2F%2Fevil.example",
 	"/%2F/evil.example", "/ /evil.example", "/ünï", "/x;param",
